@@ -92,7 +92,9 @@ def handleDecoded (stream : String) (b : Block) (durs : List DurDesc) (lens : Li
           match decSchedule flat with
           | none => (true, false, false)   -- schedule not computable
           | some (items, D) =>
-            let s1 := asapB L es dur items D && exclusiveB b items
+            -- exclusivity is claimed (and proved) for non-negative durations only
+            let nonneg := items.all fun x => decide (0 ≤ x.dur)
+            let s1 := asapB L es dur items D && (!nonneg || exclusiveB b items)
             match decSchedule blk with
             | none => (false, true, false)   -- the flat schedule exists, so must the block-level one
             | some (bitems, bD) => (s1 && hullB lens items bitems bD, true, true)
@@ -114,7 +116,9 @@ def handleDecoded (stream : String) (b : Block) (durs : List DurDesc) (lens : Li
         (if okFlat then ["scheduled"] else ["no-schedule"]) ++ (if okBlock then ["block-ok"] else []) ++
         (if expanded then ["calibrated"] else []) ++ (if lens.any (· ≥ 3) then ["expansion3+"] else []) ++
         (if b.instrs.any (fun i => (frameAccesses i).any (·.2 == .read)) then ["blocking"] else []) ++
-        (if b.term.isSome then ["term"] else []) ++ (if nested then ["nested-spans"] else []) ++ extraTags,
+        (if b.term.isSome then ["term"] else []) ++
+        (if durs.any (fun d => match instructionDuration d with | some t => decide (t < 0) | none => false) then ["negative-duration"] else []) ++
+        (if nested then ["nested-spans"] else []) ++ extraTags,
       detail := s!"extraOk={extraOk} model={mOut} impl={out}" }
 
 def handleCase (stream : String) (bS dursS lensS out : Sexp) : CaseResult :=
